@@ -152,11 +152,25 @@ theorem C13_names (d n e : Str) (hn : SLASH ∉ n) (hes : SLASH ∉ e) (he : DOT
 /-! ## read-only archives -/
 
 /-- **Mode `r` rejects every mutation**: `new_file`, `add_file`, `write`, `del`, `write_dirfile` return
-an error and change nothing — neither the open archive nor any file on disk. -/
-theorem C13_readonly (crc : Bytes → Nat) (w : World) (v : Vpk) (hv : w.vpk = some v) (hm : v.mode = .r)
-    (op : Op) (hop : ∀ m l, op ≠ .openVpk m l) (hh : ∀ n, op ≠ .has n) :
-    (step crc w op).1 = w ∧ ∃ e, (step crc w op).2 = .err e :=
-  step_readonly crc w v hv hm op hop hh
+an error and change nothing — neither the open archive nor any file on disk; leaving a `with`
+block of a read-only archive changes nothing either (and is not an error). -/
+theorem C13_readonly (crc : Bytes → Nat) (w : World) (v : Vpk) (hv : w.vpk = some v) (hm : v.mode = .r) :
+    (∀ op : Op, (∀ m l, op ≠ .openVpk m l) → (∀ n, op ≠ .has n) → (∀ b, op ≠ .exit b) →
+      (step crc w op).1 = w ∧ ∃ e, (step crc w op).2 = .err e)
+    ∧ ∀ b, step crc w (.exit b) = (w, .ok) :=
+  ⟨fun op hop hh hx => step_readonly crc w v hv hm op hop hh hx, fun b => step_exit_readonly crc w v hv hm b⟩
+
+/-! ## the context manager -/
+
+/-- **`with VPK(path, mode) as v: …`**: `__exit__` after an exception inside the block saves nothing and
+changes nothing; `__exit__` after a normal end of a writable archive is exactly `write_dirfile()`
+(so by `C13_refine`, whose histories contain `exit` operations, a session that relies solely on
+leaving the block — including one that only called `new_file()` or wrote zero-length payloads —
+is fully there after reopening). -/
+theorem C13_exit (crc : Bytes → Nat) (w : World) (v : Vpk) (hv : w.vpk = some v) :
+    step crc w (.exit true) = (w, .ok)
+    ∧ (v.mode.writable = true → step crc w (.exit false) = step crc w .flush) :=
+  ⟨step_exit_exception crc w v hv, fun hm => step_exit_normal crc w v hv hm⟩
 
 /-! ## damage detection -/
 
@@ -234,7 +248,24 @@ example : (run exCrc (World.init false) exOps).1.read ⟨[97], [110], [101]⟩ =
 example : getFileParts (.str (exName "a//b/../c/n.e")) = ⟨exName "a/c", exName "n", exName "e"⟩ := by decide +kernel
 
 example : (step exCrc ⟨false, some [], [], some ⟨[], [], .r, none, 1⟩⟩ (.addFile (.str [97]) [1] none)).2
-    = .err .readonly := by decide +kernel
+    = .err .readonly
+    ∧ (step exCrc ⟨false, some [], [], some ⟨[], [], .r, none, 1⟩⟩ (.exit false)).2 = .ok := by decide +kernel
+
+/-- the seeded scenario: an existing archive, `with VPK(path, 'a')` adding only zero-length files
+(`add_file(name, b'')`, `new_file`), saved only by leaving the block; after reopening all are there.
+With an exception in the block they are not. -/
+def exWithOps (exc : Bool) : List Op :=
+  [.openVpk .w (some 1024), .addFile (.str (exName "materials/wall.vmt")) [1, 2, 3] (some 0), .exit false,
+   .openVpk .a (some 1024), .addFile (.str (exName "cfg/empty.cfg")) [] (some 0),
+   .newFile (.triple (exName "scripts") (exName "placeholder") (exName "txt")), .exit exc,
+   .openVpk .r none]
+
+example : (run exCrc (World.init false) (exWithOps false)).1.keys.length = 3
+    ∧ (run exCrc (World.init false) (exWithOps false)).1.read ⟨exName "cfg", exName "empty", exName "cfg"⟩ = some (.ok [])
+    ∧ (run exCrc (World.init false) (exWithOps false)).1.read ⟨exName "scripts", exName "placeholder", exName "txt"⟩ = some (.ok [])
+    ∧ (run exCrc (World.init false) (exWithOps true)).1.keys.length = 1
+    ∧ (specRun Spec.init (exWithOps true)).1.read ⟨exName "cfg", exName "empty", exName "cfg"⟩ = none := by
+  decide +kernel
 
 /-- one changed byte in a numbered archive: every file still reads, `verify_all()` is false -/
 example :
